@@ -43,6 +43,7 @@ for bits in range(1, 33):
             continue  # an element could span three slots: outside the property's domain
         if (bits, slot) in seen:
             continue
-        cfg("%d_u%d" % (bits, slot), bits, slot, "thorough")
+        # sorted operations also at the full value width (comparisons there cannot be done by subtraction in 32 bits)
+        cfg("%d_u%d" % (bits, slot), bits, slot, "thorough", sorted_too=(bits == 32))
         if bits > slot:
             cfg("%d_compact_u%d" % (bits, slot), bits, slot, "thorough", compact=True)
